@@ -115,7 +115,7 @@ def c08(ctx, replay):
 
 from core import trace_validate, absorb_rejections, repo_tests_traced
 
-SIG_C05 = {"lock-acquired-while-held", "lock-acquired-after-connection-closed", "forcelock-acquired-while-held",
+SIG_C05 = {"read-step-without-read-lock", "lock-acquired-while-held", "lock-acquired-after-connection-closed", "forcelock-acquired-while-held",
            "frame-step-without-frame-lock", "frame-emitted-without-frame-lock", "data-frame-without-message-lock",
            "data-frame-by-non-owner-of-message", "saw-closed-before-close", "closed-twice", "closed-post-without-pre",
            "close-bookkeeping", "new-message-inside-message", "continuation-without-message",
@@ -127,13 +127,15 @@ SIG_C02 = {"masking-wrong-for-role", "rsv2-or-rsv3-set", "length-not-minimally-e
            "rsv1-on-continuation", "rsv1-without-negotiated-deflate", "new-message-inside-message", "continuation-without-message",
            "header-undecodable", "length-beyond-2^31", "mask-key-not-refreshed", "mask-key-reused", "second-close-frame", "data-frame-after-close-frame",
            "peer-received-corrupt-message"}
-SIG_C15 = {"ping-returned-nil-without-its-own-pong", "pong-matched-against-wrong-ping-set", "pong-does-not-echo-next-ping"}
+SIG_C15 = {"ping-returned-nil-without-its-own-pong", "pong-matched-against-wrong-ping-set", "pong-does-not-echo-next-ping",
+           "ping-frame-payload-is-not-a-registered-ping", "two-ping-frames-in-flight-with-the-same-payload",
+           "ping-failed-although-its-pong-was-sent"}
 SIG_C20 = {"library-goroutine-alive-when-close-returned", "close-returned-with-connection-open", "timeoutloop-exited-with-connection-open",
            "closeread-goroutine-exited-with-connection-open"}
 SIG_C10 = {"timeoutloop-received-other-write-context", "write-context-handoff-never-received", "timeoutloop-received-unsent-write-context",
            "timeoutloop-received-other-read-context", "read-context-handoff-never-received", "timeoutloop-received-unsent-read-context",
            "context-of-successful-call-closed-the-connection", "timeoutloop-fired-unarmed-read-context", "timeoutloop-fired-unarmed-write-context"}
-SIG_C09 = {"close-needed-the-15s-goroutine-backstop", "conc-actors-pending", "conc-reader-pending", "conc-peer-no-eof",
+SIG_C09 = {"closenow-did-not-return", "call-on-closed-connection-did-not-return", "close-needed-the-15s-goroutine-backstop", "conc-actors-pending", "conc-reader-pending", "conc-peer-no-eof",
            "close-took-too-long", "closenow-returned-error"}
 SIG_C06 = {"close-returned-with-connection-open", "received-close-echoed-with-another-code", "unsendable-close-code-marshalled", "invalid-close-code-accepted",
            "close-frame-after-marshal-error", "write-succeeded-after-close", "ping-succeeded-after-close",
@@ -148,7 +150,7 @@ SIG_RECV_C03 = SIG_RECV_FRAMING | {"control-frame-with-violation-processed", "vi
                                    "close-reported-without-a-close-frame", "close-error-differs-from-the-frame", "bytes-handed-over-without-a-message"}
 SIG_RECV_C04 = {"clean-end-of-an-incomplete-message", "message-reported-complete-with-bytes-missing", "more-bytes-handed-over-than-received-for-the-message"}
 SIG_RECV_C08 = {"more-than-limit-plus-one-bytes-handed-over", "message-beyond-the-limit-reported-complete", "read-limit-error-before-the-limit"}
-SIG_RECV_C15 = {"pong-written-without-a-received-ping"}
+SIG_RECV_C15 = {"pong-written-without-a-received-ping", "pong-does-not-echo-the-next-received-ping"}
 SIG_RECV_ALL = SIG_RECV_C03 | SIG_RECV_C04 | SIG_RECV_C08 | SIG_RECV_C15
 SIG_C05 |= SIG_RECV_FRAMING | SIG_RECV_C04
 SIG_C15 |= SIG_RECV_C15
@@ -222,6 +224,10 @@ def race_campaign(ctx, n):
     p = subprocess.run(["timeout", "3000", out, "conc", "-n", str(n), "-seed", str(ctx.seed), "-notrace", "-par", "6"],
                        stdout=subprocess.PIPE, stderr=subprocess.PIPE, text=True, env=e, cwd=ctx.scratch)
     if p.returncode not in (0, 66):
+        cr = ctx.crashed_in_library("conc(-race)", p.stderr, p.returncode)
+        if cr:
+            ctx.violations.append(("library-crashed", 1, cr))
+            return
         raise Infra("race run exited %d: %s" % (p.returncode, p.stderr[-1500:]))
     import glob
     reports = 0
@@ -256,7 +262,17 @@ def c15(ctx, replay):
 
 @check("C20")
 def c20(ctx, replay):
-    wsconn_model(ctx, ["quick", "shutdown"] if ctx.quick() else ["quick", "shutdown", "thorough"])
+    # async: Close, CloseNow and the asynchronous closer of an expired lock wait (go m.c.close()) racing; shutdown: Close, CloseNow, CloseRead
+    wsconn_model(ctx, ["quick", "async"] if ctx.quick() else ["quick", "async", "shutdown", "thorough"])
+    wsconn_deviation_regression(ctx, ["NoWaitForCloser"])
+    # (M) the life cycle at API level: every history of <= 5 operations, every ending; (B) the histories of <= 2 (quick) / 3
+    # operations x every ending run on real connections one at a time, library-created goroutines counted from a full dump
+    rec, _ = ctx.tlc("WSLife", "WSLife.cfg", workers=4, name="connection-life-cycle")
+    ctx.count_model(rec)
+    rows = ctx.path("life.ndjson")
+    ctx.tlc("WSLifeRows", "WSLifeRows.cfg", env={"OUT": rows, "N": 2 if ctx.quick() else 3}, workers=2, name="life-histories")
+    rep = ctx.drive_sharded("life", ["-rows", rows], min(core.NCPU, 16), timeout=3000)
+    ctx.absorb(rep)
     conc_campaign(ctx, 300 if ctx.quick() else 3000, SIG_C20)
     if not ctx.quick():
         repo_tests_traced(ctx, SIG_C20)
@@ -264,7 +280,7 @@ def c20(ctx, replay):
 
 @check("C06")
 def c06(ctx, replay):
-    wsconn_model(ctx, ["quick", "shutdown"] if ctx.quick() else ["quick", "shutdown", "thorough"])
+    wsconn_model(ctx, ["quick", "async"] if ctx.quick() else ["quick", "async", "shutdown", "thorough"])
     rows = ctx.path("close.ndjson")
     rec, _ = ctx.tlc("WSCloseRows", "Rows.cfg", env={"OUT": rows}, workers=4, name="close-decision-table")
     rep = ctx.drive("closetab", ["-rows", rows, "-seed", ctx.seed])
@@ -389,13 +405,16 @@ def c09(ctx, replay):
     ctx.count_model(rec)
     # Close, CloseNow and the CloseRead goroutine racing (casClosing, closeMu, forceLocks, waitGoroutines) in the endpoint model:
     # with the 5 s timers every call returns; with NO timer CloseNow returns and a closed connection unblocks every call
-    for n, what in (("shut-bounded", "Close+CloseNow+CloseRead: all return with the 5 s timers only (no 15 s backstop)"),
-                    ("shut-prompt", "Close+CloseNow+CloseRead: CloseNow returns and closed unblocks all calls with no timer at all")):
+    runs = [("shut-prompt", "Close+CloseNow+CloseRead: CloseNow returns and closed unblocks all calls with no timer at all"),
+            ("pong-prompt", "Ping stalled in its frame write, pongs arriving early and twice, peer not reading: CloseNow returns and closed unblocks all calls with no timer")]
+    if not ctx.quick():
+        runs.append(("shut-bounded", "Close+CloseNow+CloseRead: all return with the 5 s timers only (no 15 s backstop)"))
+    for n, what in runs:
         rec, _ = ctx.tlc("WSConn", "WSConn.%s.cfg" % n, name="WSConn-" + what, timeout=2400)
         ctx.count_model(rec)
-    for n in ("CloseNowWaits", "BlockingCloseMu"):
+    for n in (("CloseNowWaits", "BlockingPong") if ctx.quick() else ("CloseNowWaits", "BlockingPong", "BlockingCloseMu")):
         rec, out = ctx.tlc("WSConn", "WSConn.dev-%s.cfg" % n, expect_ok=False, name="WSConn-dev-" + n, timeout=2400)
-        caught["WSConn-" + n] = "was violated" in out
+        caught["WSConn-" + n] = ("was violated" in out or "were violated" in out)
         if not caught["WSConn-" + n]:
             raise Infra("model regression: %s no longer violates its liveness property" % n)
     # (B) adversary scripts x local states against the real code with real timers
@@ -403,8 +422,9 @@ def c09(ctx, replay):
     ctx.tlc("WSCloseBoundRows", "CloseBoundRows.cfg", env={"OUT": rows}, workers=2, name="close-bound-table")
     rep = ctx.drive("closebound", ["-rows", rows, "-seed", ctx.seed] + (["-stride", "2"] if ctx.quick() else []), timeout=600)
     ctx.absorb(rep)
-    if not ctx.quick():
-        conc_campaign(ctx, 1500, SIG_C09)
+    # concurrent executions (writers, pingers, reader, closers; peers that flood, withhold, duplicate and guess pongs, zero-window
+    # transports): every actor must return once the connection is closed and Close/CloseNow must return in time
+    conc_campaign(ctx, 200 if ctx.quick() else 1500, SIG_C09)
     ctx.extra["rule"] = ("adversaries {echo, late echo, silent, never reads, stall after k header bytes (k in 1,2,3,5,9,10,13), stall after j payload bytes "
                          "(j in 0,1,50,99), endless small frames, one endless frame, half-close} x local states {idle, reader blocked, message half read, "
                          "CloseRead active, CloseRead closing on a data message, writer blocked} x {Close, CloseNow} x role, run with real timers; "
